@@ -14,7 +14,7 @@ pub fn spec() -> Spec {
         replay,
         nshards: |_| 16,
         case_cap_s: |t| t.pick(300, 3600),
-        rule: "layer 'step': from FreeWord::new/from of EVERY raw letter sequence of length <= 4 over {0,+-1,+-2,+-3}, every single action of the full menu (product in 7 operand forms incl. in-place with every reduced word of length <= 3, inverse, powers -3..3, commutator with words <= 2, rotations -2..len+1); layer 'hist' (stateright BFS): all histories of mixed operations from the empty word to a depth, state = observed letter vector; layer 'axioms': group axioms on all triples of words <= 2, order axioms on all triples <= 3 over 2 generators; layer 'relators': representative/permutation set of every word <= L. Oracle = naive free reduction to a fixpoint on Vec<isize>. Non-trivial = some cancellation happens in the operation.",
+        rule: "layer 'step': from FreeWord::new/from of EVERY raw letter sequence of length <= 4 over {0,+-1,+-2,+-3}, every single action of the full menu (product in 7 operand forms incl. in-place with every reduced word of length <= 3, inverse, powers -3..3, commutator with words <= 2, rotations -2..len+1); layer 'hist' (stateright BFS): all histories of mixed operations from the empty word to a depth, state = observed letter vector; layer 'axioms': group axioms on all triples of words <= 2, order axioms on all triples of words <= 3 over 2 generators, <= 2 over 3 generators and some with generator indices up to 12; layer 'relators': representative/permutation set of every word <= L. Oracle = naive free reduction to a fixpoint on Vec<isize>. Non-trivial = some cancellation happens in the operation.",
         assumptions: &[],
         bounds: |t| json!({"step_raw_len": 4, "step_operand_len": 3, "hist_depth": t.pick(5, 6), "axiom_triples_len": 2, "order_triples_len": 3,
             "relator_len_2gens": t.pick(6, 8), "relator_len_3gens": t.pick(4, 5)}),
@@ -499,8 +499,21 @@ fn axioms_layer(ctx: &mut Ctx) {
             Err(m) => ctx.violation("panic", case, m, ia as u64),
         }
     }
-    // ordering: strict total order compatible with equality
-    let words = reduced_words(2, 3);
+    // ordering: strict total order compatible with equality — words of length <= 3 over 2 generators, words of
+    // length <= 2 over 3 generators, and single letters and pairs with generator indices up to 12
+    let mut words = reduced_words(2, 3);
+    for w in reduced_words(3, 2) {
+        if !words.contains(&w) {
+            words.push(w);
+        }
+    }
+    for g in [4isize, 9, 10, 11, 12] {
+        for w in [vec![g], vec![-g], vec![1, g], vec![-g, 2], vec![g, -g + 1]] {
+            if is_reduced(&w) && !words.contains(&w) {
+                words.push(w);
+            }
+        }
+    }
     for (ia, a) in words.iter().enumerate() {
         if !ctx.take() {
             continue;
